@@ -160,6 +160,29 @@ def c08(run, drv, rng, ncases):
             if not np.allclose(Db, want, rtol=1e-10, atol=1e-300):
                 run.violation("the bulk dissipation rate is not the frequency-direction integral of the spectral rate",
                               dict(info, bulk=Db.tolist(), integral=want.tolist()))
+            # ---- the terms of a spectrum do not depend on what the same objects were used for before:
+            # evaluate another spectrum of the same shape on a different grid first, then this one again
+            if case % 2 == 1:
+                run.case("object_reuse", key=(case,))
+                ds2 = spec.dataset.copy(deep=True)
+                f_old = ds2["frequency"].values
+                ds2 = ds2.assign_coords(frequency=f_old[0] * (f_old[-1] / f_old[0] * 1.3) ** (np.arange(nf) / max(nf - 1, 1)),
+                                        direction=np.sort((ds2["direction"].values + 187.0) % 360))
+                from ocean_science_utilities.wavespectra.spectrum import FrequencyDirectionSpectrum
+                other = FrequencyDirectionSpectrum(ds2)
+                gen2, _ = wp.generation(gv)
+                dis2, _ = wp.dissipation(dkind, dv)
+                gen2.rate(other, wp.da(speed), wp.da(wdir), roughness_length=wp.da(z0), wind_speed_input_type=wtype)
+                gen2.bulk_rate(other, wp.da(speed), wp.da(wdir), roughness_length=wp.da(z0), wind_speed_input_type=wtype)
+                dis2.rate(other)
+                dis2.bulk_rate(other)
+                S_again = gen2.rate(spec, wp.da(speed), wp.da(wdir), roughness_length=wp.da(z0), wind_speed_input_type=wtype).values
+                Sb_again = gen2.bulk_rate(spec, wp.da(speed), wp.da(wdir), roughness_length=wp.da(z0), wind_speed_input_type=wtype).values
+                D_again, Db_again = dis2.rate(spec).values, dis2.bulk_rate(spec).values
+                if not (np.array_equal(S_again, S) and np.array_equal(Sb_again, Sb) and np.array_equal(D_again, D) and np.array_equal(Db_again, Db)):
+                    run.violation("source terms of a spectrum depend on the grid of the spectrum the same term object evaluated before "
+                                  "(rates no longer use the spectrum's own directions and bin widths)",
+                                  dict(info, other_frequency=ds2["frequency"].values.tolist(), other_direction=ds2["direction"].values.tolist()))
             # ---- batch = single
             for i in rng.sample(range(npts), min(2, npts)):
                 one = wp.subset(spec, [i])
